@@ -15,7 +15,8 @@ Inductive trigger :=
   | TrClimbingLink        (* K3: a relative link target that lexically climbs above the root *)
   | TrDanglingParent      (* K4: a parent component of the name is a dangling symlink *)
   | TrRelativeName        (* D20: the operation names its path relatively *)
-  | TrHiddenViaLink.      (* D9: a name that is not lexically hidden resolves (through a symlink or a physical ..) into a hidden path *)
+  | TrHiddenViaLink
+  | TrRemovesRoot.        (* K6: Remove/RemoveAll/Rename of the root directory of the base view itself *)      (* D9: a name that is not lexically hidden resolves (through a symlink or a physical ..) into a hidden path *)
 
 (** evaluate a read-only monadic query on a world, discarding effects *)
 Definition query {A} (m : M A) (w : world) : option A :=
@@ -172,6 +173,10 @@ Section Trig.
      then [TrLinkThroughLink] else []) ++
     (if existsb (fun n => dangling_parent n w) (op_paths o) then [TrDanglingParent] else []) ++
     (if existsb (fun n => negb (is_abs (clean n))) (op_paths o) then [TrRelativeName] else []) ++
+    (match o with
+     | ORemove n | ORemoveAll n | ORename n _ => if str_eqb (clean n) s_root then [TrRemovesRoot] else []
+     | _ => []
+     end) ++
     (if existsb (fun n => hidden_via_link n w)
                 (op_paths o ++ match o with OStat n | OLstat n | OReadlink n | ORead n | OReaddir n => [n] | _ => [] end)
      then [TrHiddenViaLink] else []) ++
